@@ -175,6 +175,29 @@ pub fn verify(case: &Value, scratch: &Path, idx: usize) -> Value {
         }
     }
 
+    // optional history: other layouts verified first, in this process, with the very same caller key
+    // objects (clones of them) and the same link directory
+    if let Some(pre) = case.get("pre_layouts").and_then(|v| v.as_array()) {
+        let mut pre_runs = Vec::new();
+        for t in pre.iter().filter_map(|t| t.as_str()) {
+            let r = guarded(|| -> Result<(), String> {
+                let l = serde_json::from_str::<Metablock>(t)
+                    .map_err(|e| format!("parse: {}", e))?;
+                let keymap: HashMap<KeyId, PublicKey> =
+                    pairs.iter().cloned().collect();
+                in_toto_verify(&l, keymap, &link_dir, step_name)
+                    .map(|_| ())
+                    .map_err(|e| e.to_string())
+            });
+            pre_runs.push(match r {
+                Ok(Ok(())) => json!("ok"),
+                Ok(Err(e)) => json!({"err": clip(&e)}),
+                Err(p) => json!({"panic": p}),
+            });
+        }
+        o["pre_runs"] = Value::Array(pre_runs);
+    }
+
     let mut runs = Vec::new();
     let mut last_summary: Option<Value> = None;
     for _ in 0..reps {
